@@ -364,6 +364,17 @@ func (h *kbHarness) listLine() {
 	t.Line("list", res != "OK -", "list => %s", res)
 }
 
+func (h *kbHarness) exportObjLine(a, p string) {
+	res := try(func() string {
+		priv, err := h.kb.ExportPrivateKeyObject(addrOf(a), p)
+		if err != nil {
+			return errClass(err)
+		}
+		return "OK " + privHex(priv)
+	})
+	h.t.Line("exportobj", strings.HasPrefix(res, "OK"), "exportobj %s %s => %s", a, hx(p), res)
+}
+
 func (h *kbHarness) step() {
 	r := h.r
 	t := h.t
@@ -460,6 +471,11 @@ func (h *kbHarness) step() {
 		o, n := pass(), pass()
 		res := try(func() string { return errClass(h.kb.Update(addrOf(a), o.s, n.s)) })
 		t.Line("update", res == "OK", "update %s %s %s => %s", a, hx(o.s), hx(n.s), res)
+		if res == "OK" {
+			// the key must now open with the new passphrase and (unless equivalent) not with the old one
+			h.exportObjLine(a, n.s)
+			h.exportObjLine(a, o.s)
+		}
 	case k < 16:
 		a := h.pickAddr()
 		p := pass()
@@ -498,6 +514,78 @@ func (h *kbHarness) step() {
 	default:
 		h.listLine()
 	}
+}
+
+// kbScenario: fixed short histories that every run contains (independent of the seed):
+// coinbase cache across Delete and Update, delete-then-get/list, export -> import elsewhere.
+func kbScenario(t *buf, r *gen.R, pool []pw) {
+	h := &kbHarness{t: t, kb: keys.NewInMemory(), r: r, pws: []pw{pool[1], pool[6], pool[3]}, known: map[string]string{}}
+	for j := 0; j < 2; j++ {
+		h.pool = append(h.pool, newKey(r, false))
+	}
+	k0, k1 := h.pool[0], h.pool[1]
+	t.Line("newkb", true, "newkb => OK")
+	imp := func(k key, p string) {
+		res := try(func() string {
+			var raw [64]byte
+			copy(raw[:], k.priv.RawBytes())
+			kp, err := h.kb.ImportPrivateKeyObject(raw, p)
+			if err != nil {
+				return errClass(err)
+			}
+			return "OK " + hex.EncodeToString(kp.GetAddress())
+		})
+		t.Line("import", strings.HasPrefix(res, "OK"), "import %s %s %s => %s", privHex(k.priv), k.addr, hx(p), res)
+	}
+	setcb := func(a string) {
+		res := try(func() string { return errClass(h.kb.SetCoinbase(addrOf(a))) })
+		t.Line("setcoinbase", res == "OK", "setcoinbase %s => %s", a, res)
+	}
+	getcb := func() {
+		res := try(func() string {
+			kp, err := h.kb.GetCoinbase()
+			if err != nil {
+				return errClass(err)
+			}
+			return "OK " + hex.EncodeToString(kp.GetAddress())
+		})
+		t.Line("getcoinbase", strings.HasPrefix(res, "OK"), "getcoinbase => %s", res)
+	}
+	del := func(a, p string) {
+		res := try(func() string { return errClass(h.kb.Delete(addrOf(a), p)) })
+		t.Line("delete", res == "OK", "delete %s %s => %s", a, hx(p), res)
+	}
+	get := func(a string) {
+		res := try(func() string {
+			kp, err := h.kb.Get(addrOf(a))
+			if err != nil {
+				return errClass(err)
+			}
+			return "OK " + hex.EncodeToString(kp.GetAddress())
+		})
+		t.Line("get", strings.HasPrefix(res, "OK"), "get %s => %s", a, res)
+	}
+	imp(k0, "a")
+	imp(k1, "b")
+	h.listLine()
+	{
+		res := try(func() string { return errClass(h.kb.Update(addrOf(k1.addr), "b", "pässwörd✓日本")) })
+		t.Line("update", res == "OK", "update %s %s %s => %s", k1.addr, hx("b"), hx("pässwörd✓日本"), res)
+		h.exportObjLine(k1.addr, "pässwörd✓日本")
+		h.exportObjLine(k1.addr, "b")
+		res = try(func() string { return errClass(h.kb.Update(addrOf(k1.addr), "pässwörd✓日本", "b")) })
+		t.Line("update", res == "OK", "update %s %s %s => %s", k1.addr, hx("pässwörd✓日本"), hx("b"), res)
+	}
+	setcb(k0.addr)
+	getcb()
+	del(k0.addr, "b") // wrong passphrase
+	del(k0.addr, "a")
+	get(k0.addr)
+	h.listLine()
+	getcb() // the cached coinbase key was deleted
+	del(k1.addr, "b")
+	h.listLine()
+	getcb()
 }
 
 func kbCase(t *buf, r *gen.R, pool []pw, ops int) {
@@ -551,7 +639,9 @@ func main() {
 			defer func() { <-sem }()
 			b := &buf{}
 			r := gen.New(seeds[i])
-			if i%3 == 0 {
+			if i == 1 {
+				kbScenario(b, r, pool)
+			} else if i%3 == 0 {
 				mintkeyCase(b, r, pool)
 			} else {
 				kbCase(b, r, pool, *ops)
